@@ -96,10 +96,13 @@ type Prop struct {
 	// exhaustively before random exploration starts (may be nil).
 	Enumerate func(tier string) [][]uint32
 	// Components / notes for the evidence file.
-	Real, Stub  []string
-	Rule        string
-	Level       string
-	Assumptions []string
+	Real, Stub []string
+	Rule       string
+	Level      string
+	// ReplayAttempts > 1: the property depends on real interleavings inside a round
+	// (race engine); a replay re-executes the script up to that many times.
+	ReplayAttempts int
+	Assumptions    []string
 }
 
 var devVerbose bool
@@ -481,5 +484,9 @@ func Replay(t *testing.T, rf *ReplayFile) *RunResult {
 	if p == nil {
 		return &RunResult{Infra: "unknown property " + rf.Property}
 	}
-	return ExecRun(t, p, NewReplayChooser(rf.Choices), true, rf.Tier)
+	res := ExecRun(t, p, NewReplayChooser(rf.Choices), true, rf.Tier)
+	for i := 1; i < p.ReplayAttempts && !hasSig(res, rf.Sig); i++ {
+		res = ExecRun(t, p, NewReplayChooser(rf.Choices), true, rf.Tier)
+	}
+	return res
 }
